@@ -46,6 +46,19 @@ var c09ComposeCases = []faCase{
 		patch: "@@\nvar T identifier\n@@\n-T{...}\n+mk(T{...})\n\n@@\nvar U identifier\n@@\n-mk(U{})\n+zero(U)\n",
 		minus: "package p\n\nvar a = ⟦«T:Box»{}⟧\n\nvar b = ⟦«T:Bag»{«d1:x: 1»}⟧\n",
 		plus:  "package p\n\nvar a = ⟦mk(«T»{})⟧\n\nvar b = ⟦mk(«T»{«d1»})⟧\n"},
+	// an earlier change leaves a tree that prints as text whose parse has another shape
+	{name: "first-leaves-single-result-in-parens",
+		patch: "@@\nvar name identifier\n@@\n-func name(foo string) (..., error) {\n+func name(foo string) (...) {\n- return ..., nil\n+ return ...\n }\n\n@@\nvar name identifier\n@@\n-func name(foo string) string {\n+func name(foo int) string {\n   ...\n }\n",
+		minus: "package p\n\n⟦func «name:a»(foo string) («d1:string», error) {\n\treturn «d2:\"x\"», nil\n}⟧\n",
+		plus:  "package p\n\n⟦func «name»(foo string) «d1» {\n\treturn «d2»\n}⟧\n"},
+	{name: "first-leaves-empty-result-list",
+		patch: "@@\nvar name identifier\n@@\n-func name(foo string) (..., err error) {\n+func name(foo string) (...) {\n- return ..., nil\n+ return ...\n }\n\n@@\nvar name identifier\n@@\n-func name(foo string) {\n+func name(foo int) {\n   ...\n }\n",
+		minus: "package p\n\n⟦func «name:a»(foo string) (err error) {\n\treturn nil\n}⟧\n",
+		plus:  "package p\n\n⟦func «name»(foo string) {\n\treturn\n}⟧\n"},
+	{name: "first-leaves-single-index-list",
+		patch: "@@\nvar a, b expression\n@@\n-G[a, b, ...]\n+G[a, ...]\n\n@@\n@@\n-G[int]\n+H\n",
+		minus: "package p\n\nvar x = ⟦G[«a:int», «b:string»]⟧{}\n",
+		plus:  "package p\n\nvar x = ⟦G[«a»]⟧{}\n"},
 }
 
 // VerifC09Compose is the entry point.
